@@ -6,6 +6,10 @@ import (
 	"fmt"
 	"os"
 
+	"go.uber.org/zap"
+
+	"github.com/uber/kraken/utils/log"
+
 	"kvh/internal/eng"
 
 	_ "kvh/engines/all"
@@ -15,6 +19,9 @@ func main() {
 	if len(os.Args) < 2 {
 		fmt.Println("usage: kvh <engine> -seed N -tier quick|thorough -out DIR [-only T]; engines:", eng.Names())
 		os.Exit(2)
+	}
+	if os.Getenv("KVH_LOG") == "" {
+		log.SetGlobalLogger(zap.NewNop().Sugar())
 	}
 	name := os.Args[1]
 	fs := flag.NewFlagSet(name, flag.ExitOnError)
